@@ -50,6 +50,20 @@ func withoutEOF(err error) error {
 	return err
 }
 
+// isEndOfBody reports whether a transport's Read error is the clean end of the
+// body: io.EOF itself, as io.Reader defines it, or the end that this call's
+// own duplexHTTPCall has recorded and replays (a coded error wrapping io.EOF).
+// Any other error is a failure, even if it has io.EOF somewhere in its chain -
+// a net.OpError{Err: io.EOF} from a wrapped body, say - and must not pass for
+// the end of the stream.
+func isEndOfBody(err error) bool {
+	if err == io.EOF { //nolint:errorlint // the io.Reader contract is about identity
+		return true
+	}
+	_, coded := asError(err)
+	return coded && errors.Is(err, io.EOF)
+}
+
 func newSpecialEnvelopeError() *Error {
 	return NewError(CodeUnknown, errSpecialEnvelope)
 }
@@ -224,7 +238,7 @@ func (r *envelopeReader) Read(env *envelope) *Error {
 		// Successfully read prefix and expect no additional data.
 		env.Flags = prefixes[0]
 		return nil
-	case err != nil && errors.Is(err, io.EOF) && prefixBytesRead == 0:
+	case err != nil && prefixBytesRead == 0 && isEndOfBody(err):
 		// The stream ended cleanly. That's expected, but we need to propagate them
 		// to the user so that they know that the stream has ended. We shouldn't
 		// add any alarming text about protocol errors, though.
@@ -236,7 +250,7 @@ func (r *envelopeReader) Read(env *envelope) *Error {
 		}
 		return r.fail(errorf(
 			CodeInvalidArgument,
-			"protocol error: incomplete envelope: %w", err,
+			"protocol error: incomplete envelope: %w", withoutEOF(err),
 		))
 	}
 	size := int(binary.BigEndian.Uint32(prefixes[1:5]))
